@@ -14,6 +14,8 @@ fail — nothing is claimed):
 * `flat_refines_trie` — from any state in which the map mirrors the trie (`Inv`), an `add` inside the domain `PlainDom`
   on which the trie succeeds succeeds on the map too and keeps the mirror; for every such message and state, not only
   spec states;
+* `flat_error_agrees` — where the trie fails with one of the parser's own exceptions (anything but `underMessage`) the flat
+  algorithm fails with the same one;
 * `flat_sequence_refines_trie` — the same for any sequence; `flat_root_and_complete` — `root()`, `is_complete()` and every
   `_nodes` entry then agree;
 * `spec_stream_in_domain` — a message of a well-formed task never leaves the domain, whatever has arrived so far;
@@ -32,6 +34,11 @@ open PM
 
 theorem flat_refines_trie {ft : FTask} {t t' : Task} {m : PMsg} (hinv : Inv ft t) (hdom : PlainDom t m)
     (h : t.add m = .ok t') : ∃ ft', ft.add m = .ok ft' ∧ Inv ft' t' := add_refines hinv hdom h
+
+/-- the parser's own exceptions (`InvalidStartMessage`, `WrongActionType`, `InvalidStatus`, a missing status, an empty level): where
+the trie reports one, the flat algorithm reports the same one at the same message - from any mirrored state, no domain hypothesis -/
+theorem flat_error_agrees {ft : FTask} {t : Task} {m : PMsg} {e : Err} (hinv : Inv ft t) (h : t.add m = .error e)
+    (he : e ≠ .underMessage) : ft.add m = .error e := add_error_agrees hinv h he
 
 theorem flat_sequence_refines_trie (ms : List PMsg) (t' : Task) (hdom : DomAll {} ms)
     (h : Task.addAll {} ms = .ok t') : ∃ ft', FTask.addAll {} ms = .ok ft' ∧ Inv ft' t' :=
